@@ -346,7 +346,7 @@ class File:
         if not isinstance(obj, Section):
             raise TypeError("Object to be copied is not a Section")
 
-        if obj._sec_parent:
+        if obj.parent is not None:
             src = "{}/{}".format("sections", obj.name)
         else:
             src = "{}/{}".format("metadata", obj.name)
